@@ -60,6 +60,8 @@ def run_program(case, res, prefixes, check_fn, symbols=False):
             w.resync()
         if applied:
             tags.append("op:" + name)
+            if op.get("as") == "boom":
+                tags.append("failed-op:" + name)
         if name.startswith("set.") or name.startswith("list.") or name == "new":
             coll_side = coll_side or applied
         for key, old in before_ir.items():
@@ -82,6 +84,7 @@ def run_program(case, res, prefixes, check_fn, symbols=False):
         if b.startswith(prefixes):
             res.fail(ID_OF[prefixes] + ":" + b, d)
     res.tag(*tags)
+    res.tag(*w.tags)
     if cross:
         res.tag("cross-ir-move")
     if reattach:
